@@ -53,7 +53,7 @@ theorem insertSorted_sorted (x : Int64) (l : List Int64)
   | cons y ys ih =>
     simp only [List.map_cons, insertSorted]
     have hless : valLess (Val.int x) (Val.int y) = decide (x < y) := by
-      simp [valLess, Val.isInteger, Val.rkind, Val.kind]
+      simp [valLess, intValue, Val.resolved, Val.isInteger, Val.rkind, Val.kind, Int64.lt_iff_toInt_lt]
       congr
     rw [hless]
     rw [List.map_cons, List.pairwise_cons] at h
